@@ -457,6 +457,54 @@ func TestC09(t *testing.T) {
 			nt++
 		}
 	}
+	// a binary of several chunks, in either chunk tag, as the []byte field of an object that follows 0..4 other classes
+	// (x62 is the draft's chunk tag and the short instance tag of class #2)
+	for k := 0; k <= 4; k++ {
+		for _, tag := range []byte{'A', 'b'} {
+			if !mine() {
+				continue
+			}
+			p := mkBytes(700, uint64(k)+uint64(tag))
+			in := []byte{0x57}
+			for i := 0; i < k; i++ {
+				in = append(in, 'C', 0x03, 'K', '0', byte('0'+i), 0x91, 0x01, 'a', byte(0x60+i))
+				switch i {
+				case 0:
+					in = append(in, 0x95) // K00.A int32
+				case 2:
+					in = append(in, 0xe5) // K02.A int64
+				case 1:
+					in = append(in, 0x01, 'x') // K01.A string
+				case 3:
+					in = append(in, 'T') // K03.A bool
+				}
+			}
+			in = append(in, 'C', 0x03, 'K', '0', '6', 0x91, 0x01, 'a', byte(0x60+k))
+			in = append(in, tag, 0x01, 0x00)
+			in = append(in, p[:256]...)
+			in = append(in, tag, 0x01, 0x00)
+			in = append(in, p[256:512]...)
+			in = append(in, 'B', 0x00, byte(len(p)-512))
+			in = append(in, p[512:]...)
+			in = append(in, 0x03, 'e', 'n', 'd', 'Z')
+			var out interface{}
+			var err error
+			pv, st := guard(func() { out, err = hessian.ToObject(in, c05TM) })
+			l, _ := out.([]interface{})
+			var got []byte
+			if len(l) == k+2 {
+				if o, ok := l[k].(*zoo.K06); ok {
+					got = o.A
+				}
+			}
+			if pv != nil || err != nil || len(l) != k+2 || !bytes.Equal(got, p) || l[k+1] != interface{}("end") {
+				directFail(t, "C09", map[string]interface{}{"kind": "chunked-binary-field-after-classes", "classes_before": fmt.Sprint(k), "tag": string(tag)},
+					"C09 binary of 700 octets in three '%c' chunks as the []byte field of an object that follows %d other classes: err=%v panic=%v [%s], %d elements, %d octets back", tag, k, err, pv, st, len(l), len(got))
+			}
+			r.EvalN(1)
+			nt++
+		}
+	}
 	r.Label("foreign chunk sizes up to 65535")
 	// ---- typed lists longer than the decoder's pre-allocation bound with empty strings in between
 	for _, ln := range []int{64, 65, 66, 100, 300, 1025} {
